@@ -74,7 +74,8 @@ class Contract(object):
 
 
 class ClassInfo(object):
-  def __init__(self, name, fields=None, bases=(), properties=(), eq='identity', module=None, pyname=None):
+  def __init__(self, name, fields=None, bases=(), properties=(), eq='identity', module=None, pyname=None,
+               final=False):
     self.name = name
     self.pyname = pyname or name   # class name in the source (several modules define `Analyzer`)
     self.fields = {k: parse_type(v) for k, v in (fields or {}).items()}
@@ -82,6 +83,7 @@ class ClassInfo(object):
     self.properties = set(properties)
     self.eq = eq
     self.module = module
+    self.final = final   # no instance of a proper subclass occurs (e.g. ast.Store / ast.Load / ast.Del)
 
 
 class World(object):
